@@ -1,6 +1,9 @@
 import WhVerif.Model.C12
 import WhVerif.Spec.C12
 import WhVerif.Lemmas.C12
+import WhVerif.Model.C12Run
+import WhVerif.Spec.C12Run
+import WhVerif.Lemmas.C12Run
 /-!
 # C12 — stats counts add up and describe the phase sets present in the file
 
@@ -364,5 +367,289 @@ example : phaseOf ⟨false, false⟩ ⟨30, "A", ["C"], [some 0, some 1], true, 
 example : blockList [(none, [(30, true)]), (some 10, [(10, true), (20, true)])] = .error .typeErrorBlockNone := by rfl
 /-- … after fixes/F5b.patch it belongs to phase set 0 -/
 example : phaseOf ⟨true, true⟩ ⟨30, "A", ["C"], [some 0, some 1], true, true, none, none⟩ = some (some 0) := by decide
+
+/-! ## `run_stats` end to end (`Model/C12Run.lean`) -/
+
+/-- **n50_spec**: `n50(lengths, target)` is the N50 of the lengths with respect to the target: the pieces at least that long
+reach half of the target, the strictly longer ones do not; 0 iff even all pieces together stay below half of it. -/
+theorem n50_spec (lengths : List Nat) (target : Nat) : IsN50 lengths target (n50 lengths target) :=
+  n50_isN50 lengths target
+
+/-- on the lengths 8, 5, 3, 1 (largest first) and target 17 the loop stops at 5: 8 + 5 ≥ 8.5 -/
+example : n50Loop 17 0 [8, 5, 3, 1] = 5 ∧ n50Loop 40 0 [8, 5, 3, 1] = 0 := by decide
+
+/-- **reader_spec**: when the reader accepts a chromosome it delivers exactly the first eligible record of every position
+(one ALT allele; with `--only-snvs` one base against one base), in file order, at strictly increasing positions. -/
+theorem reader_spec (f : Flags) (onlySnvs : Bool) (recs : List Rec) (vars : List Var)
+    (h : readChrom f onlySnvs recs = .ok vars) :
+    vars = specVars f onlySnvs recs ∧ (vars.map (·.pos)).Pairwise (· < ·) :=
+  readChrom_spec f onlySnvs recs vars h
+
+/-- every piece `get_nonoverlapping_blocks` returns has at least two variants: the block lengths of the TSV and the
+lengths NG50 is computed from are the same multiset -/
+theorem pieces_have_two_variants (f : Flags) (vars : List Var) (s : Stats) (h : chromStats f vars = some s) :
+    (∀ p ∈ s.splitBlocks, p.length > 1) ∧
+    ((bigOf s.blocks).isEmpty = false → (detailed s).lengths.Perm (s.splitBlocks.map span)) := by
+  obtain ⟨_, hn, _⟩ := chromStats_fields f vars s h
+  have hb := nonoverlap_big _ _ hn
+  refine ⟨hb, ?_⟩
+  intro hne
+  unfold detailed
+  rw [if_neg (by simp [hne])]
+  simp only
+  rw [bigOf_of_QBig hb]
+  exact sortNat_perm _
+/-! ### the chromosome loop, the ALL row -/
+
+/-- **run_rows_are_chromStats**: every chromosome row of a successful run is the statistics of the variants the reader
+delivered for records of the file under that name (its own group, or — indexed fetch — all groups of that name). -/
+theorem run_rows_are_chromStats (i : RunIn) (o : RunOut) (h : run i = .ok o) :
+    ∀ p ∈ o.parts, chromStats i.flags p.vars = some p.stats ∧
+      ∃ recs, readChrom i.flags i.onlySnvs recs = .ok p.vars ∧ p.vars = specVars i.flags i.onlySnvs recs ∧
+        ((p.name, recs) ∈ i.file ∨ recs = recsOf i.file p.name) := by
+  intro p hp
+  obtain ⟨hl, _⟩ := run_ok i o h
+  obtain ⟨h1, h2, _⟩ := runLoop_parts _ _ _ _ _ _ _ hl p hp
+  obtain ⟨recs, hr, hm⟩ := tables_mem i _ p.name p.vars h2
+  exact ⟨h1, recs, hr, (readChrom_spec _ _ _ _ hr).1, hm⟩
+
+/-- **run_counts_the_file**: end to end (repaired classification, `fixMissing`): the eight counts of every chromosome
+row equal the independent counts over the records of the file — first eligible record of every position, classified call
+by call. -/
+theorem run_counts_the_file (i : RunIn) (hf : i.flags.fixMissing = true) (o : RunOut) (h : run i = .ok o) :
+    ∀ p ∈ o.parts, ∃ recs, ((p.name, recs) ∈ i.file ∨ recs = recsOf i.file p.name) ∧
+      (detailed p.stats).variants = specVariants (specVars i.flags i.onlySnvs recs) ∧
+      (detailed p.stats).het = specHet (specVars i.flags i.onlySnvs recs) ∧
+      (detailed p.stats).hetSnvs = specHetSnvs (specVars i.flags i.onlySnvs recs) ∧
+      (detailed p.stats).unphased = specUnphased (specVars i.flags i.onlySnvs recs) ∧
+      (detailed p.stats).phased = specPhased (specVars i.flags i.onlySnvs recs) ∧
+      (detailed p.stats).singletons = specSingletons (specVars i.flags i.onlySnvs recs) ∧
+      (detailed p.stats).blocks = specBlocks (specVars i.flags i.onlySnvs recs) ∧
+      (detailed p.stats).phasedSnvs = specPhasedSnvs (specVars i.flags i.onlySnvs recs) := by
+  intro p hp
+  obtain ⟨hc, recs, _, hv, hm⟩ := run_rows_are_chromStats i o h p hp
+  refine ⟨recs, hm, ?_⟩
+  rw [← hv]
+  exact counts_eq_independent i.flags hf p.vars p.stats hc
+
+/-- **run_reports_wanted_chromosomes** (the early exit loses nothing): when the file is iterated (no index, or no
+`--chromosome`) and its chromosomes are contiguous, the chromosome rows are exactly the chromosomes of the file that are
+not filtered out, each once, in file order. -/
+theorem run_reports_wanted_chromosomes (i : RunIn) (o : RunOut) (h : run i = .ok o)
+    (hp : i.indexed = false ∨ unpackChromosomes i.given = []) (hn : (i.file.map (·.1)).Nodup) :
+    o.parts.map (·.name) = (i.file.map (·.1)).filter (fun c => !skipped (unpackChromosomes i.given) c) := by
+  obtain ⟨hl, _⟩ := run_ok i o h
+  have hnames := tables_names_plain i (unpackChromosomes i.given) hp
+  have := runLoop_names _ _ _ _ _ _ _ (by rw [hnames]; exact hn) (by intro c _ hc; cases hc) hl
+  rw [this, hnames]
+
+/-- **run_indexed_reports_given**: with an index and `--chromosome`, after `fixes/F75.patch`, the chromosome rows are the
+distinct given chromosomes, each once, in the order given. -/
+theorem run_indexed_reports_given (i : RunIn) (o : RunOut) (h : run i = .ok o) (hi : i.indexed = true)
+    (hg : unpackChromosomes i.given ≠ []) (hd : i.dedupGiven = true) :
+    o.parts.map (·.name) = strDedup (unpackChromosomes i.given) := by
+  obtain ⟨hl, _⟩ := run_ok i o h
+  have hnames := tables_names_indexed i (unpackChromosomes i.given) hi hg
+  rw [hd, if_pos rfl] at hnames
+  have := runLoop_names _ _ _ _ _ _ _ (by rw [hnames]; exact nodup_strDedup _) (by intro c _ hc; cases hc) hl
+  rw [this, hnames]
+  apply List.filter_eq_self.mpr
+  intro c hc
+  have : c ∈ unpackChromosomes i.given := (mem_strDedup _ _).mp hc
+  simp [skipped, this]
+
+/-- **run_all_row_is_sum**: end to end — whenever `run_stats` prints an ALL row, its additive columns are the column-wise
+sums of the chromosome rows printed before it (no side condition left: every row comes from `chromStats`). -/
+theorem run_all_row_is_sum (i : RunIn) (o : RunOut) (h : run i = .ok o) (a : Stats) (ha : o.all = some a) :
+    (detailed a).additive
+      = (o.parts.map (fun p => (detailed p.stats).additive)).foldl addVec (detailed ({} : Stats)).additive := by
+  obtain ⟨hl, hall⟩ := run_ok i o h
+  rw [hall] at ha
+  split at ha
+  · cases ha
+    have hc : ∀ s ∈ o.parts.map (·.stats), s.Consistent := by
+      intro s hs
+      obtain ⟨p, hp, rfl⟩ := List.mem_map.mp hs
+      exact chrom_consistent _ _ _ (runLoop_parts _ _ _ _ _ _ _ hl p hp).1
+    have := all_row_is_sum (o.parts.map (·.stats)) hc
+    rw [List.map_map] at this
+    exact this
+  · cases ha
+
+/-- the ALL row is printed iff more than one chromosome was *seen*; without `--chromosome` (contiguous chromosomes) that
+is: iff the file has at least two chromosomes -/
+theorem run_all_row_iff (i : RunIn) (o : RunOut) (h : run i = .ok o) :
+    (o.all.isSome ↔ o.seen.length > 1) ∧
+    (unpackChromosomes i.given = [] → (i.file.map (·.1)).Nodup → o.seen = i.file.map (·.1)) := by
+  obtain ⟨hl, hall⟩ := run_ok i o h
+  refine ⟨?_, ?_⟩
+  · rw [hall]; split <;> simp_all
+  · intro hg hn
+    rw [hg] at hl
+    have := runLoop_seen_all _ _ _ _ _ _ hl
+    rw [this, tables_names_plain i [] (Or.inr rfl), foldl_addSeen_nodup _ [] hn (by intro c _ hc; cases hc)]
+    rfl
+
+/-- **run_sum_identity**: phased + unphased + singletons = heterozygous for every row `run_stats` prints, the ALL row
+included (the `assert` in `DetailedStats.print` never fires). -/
+theorem run_sum_identity (i : RunIn) (o : RunOut) (h : run i = .ok o) :
+    (∀ p ∈ o.parts, (detailed p.stats).phased + (detailed p.stats).unphased + (detailed p.stats).singletons
+      = (detailed p.stats).het) ∧
+    ∀ a, o.all = some a → (detailed a).phased + (detailed a).unphased + (detailed a).singletons = (detailed a).het := by
+  obtain ⟨hl, hall⟩ := run_ok i o h
+  have hparts := runLoop_parts _ _ _ _ _ _ _ hl
+  refine ⟨fun p hp => sum_identity _ _ _ (hparts p hp).1, ?_⟩
+  intro a ha
+  rw [hall] at ha
+  split at ha
+  · cases ha
+    exact sum_identity_all i.flags (o.parts.map (·.vars)) (o.parts.map (·.stats))
+      (mapM_parts _ _ (fun p hp => (hparts p hp).1))
+  · cases ha
+/-! ### GTF, block list, NG50 of the rows -/
+
+/-- **gtf_rows_are_runs**: with integer phase-set ids the GTF has exactly one feature per maximal run of consecutive
+phased calls of one phase set: the runs concatenate to the phased calls, are non-empty, constant in the id, neighbouring
+runs differ in the id, and the feature of a run is (first position + 1, last position + 1, id). -/
+theorem gtf_rows_are_runs (ph : List (BlockId × Member)) (hall : ∀ x ∈ ph, x.1.isSome) :
+    gtf ph = (runsOf ph).filterMap runRow ∧ (gtf ph).length = (runsOf ph).length ∧ (runsOf ph).flatten = ph ∧
+    (∀ r ∈ runsOf ph, r ≠ [] ∧ ∀ a ∈ r, ∀ b ∈ r, a.1 = b.1) ∧ AdjDiff (runsOf ph) := by
+  have hflat := runsOf_flatten ph
+  have hsome : ∀ r ∈ runsOf ph, (runRow r).isSome := by
+    intro r hr
+    apply runRow_isSome r (runsOf_nonempty ph r hr)
+    intro x hx
+    apply hall
+    rw [← hflat]
+    exact List.mem_flatten.mpr ⟨r, hr, hx⟩
+  have hlen : ∀ (l : List (List (BlockId × Member))), (∀ r ∈ l, (runRow r).isSome) →
+      (l.filterMap runRow).length = l.length := by
+    intro l
+    induction l with
+    | nil => intro _; rfl
+    | cons r t ih =>
+      intro hl
+      obtain ⟨row, hrow⟩ := Option.isSome_iff_exists.mp (hl r (List.mem_cons_self ..))
+      rw [List.filterMap_cons, hrow]
+      simp only [List.length_cons]
+      rw [ih (fun x hx => hl x (List.mem_cons_of_mem _ hx))]
+  refine ⟨gtf_eq_runs ph hall, ?_, hflat, fun r hr => ⟨runsOf_nonempty ph r hr, runsOf_same_id ph r hr⟩, runsOf_adjacent ph⟩
+  rw [gtf_eq_runs ph hall, hlen _ hsome]
+
+example : gtf [(some 7, (10, true)), (some 7, (20, true)), (some 9, (30, false)), (some 7, (40, true))]
+    = [(11, 21, 7), (31, 31, 9), (41, 41, 7)] := by decide
+
+/-- **run_gtf_and_block_list**: end to end (`fixPs`, i.e. /repo HEAD): for every processed chromosome all phase-set ids
+are integers, `--block-list` cannot fail and the GTF features are the rows of the maximal runs. -/
+theorem run_gtf_and_block_list (i : RunIn) (hf : i.flags.fixPs = true) (o : RunOut) (h : run i = .ok o) :
+    ∀ p ∈ o.parts, (∀ x ∈ phasedOf i.flags p.vars, x.1.isSome) ∧
+      (∃ rows, blockList (blocksOf (phasedOf i.flags p.vars)) = .ok rows) ∧
+      gtf (phasedOf i.flags p.vars) = (runsOf (phasedOf i.flags p.vars)).filterMap runRow := by
+  intro p hp
+  obtain ⟨_, recs, _, hv, _⟩ := run_rows_are_chromStats i o h p hp
+  have hids : ∀ x ∈ phasedOf i.flags p.vars, x.1.isSome := by
+    rw [hv]; exact phasedOf_ids_some i.flags hf i.onlySnvs recs
+  refine ⟨hids, ?_, gtf_eq_runs _ hids⟩
+  apply blockList_ok
+  intro b hb
+  obtain ⟨id, hid, rfl⟩ := List.mem_map.mp hb
+  have := (mem_dedupIds _ _).mp hid
+  obtain ⟨x, hx, rfl⟩ := List.mem_map.mp this
+  exact hids x hx
+
+/-- **run_n50_spec**: the `block_n50` column of every row is the N50 of exactly the block lengths reported in that row
+(`bp_per_block_*` are computed from the same list), with respect to the summed length of the distinct chromosomes that
+contribute a piece — for a chromosome row with pieces: its own length. `none` = `nan`. -/
+theorem run_n50_spec (i : RunIn) (o : RunOut) (h : run i = .ok o) :
+    (∀ p ∈ o.parts, ∀ r, partN50 i.lens p = some r →
+      ∃ T, targetLength i.lens (strDedup (p.stats.splitBlocks.map (fun _ => p.name))) = some T ∧
+        (p.stats.splitBlocks ≠ [] → lookupLen i.lens p.name = some T) ∧ IsN50 (detailed p.stats).lengths T r) ∧
+    (∀ a, o.all = some a → ∀ r, allN50 i.lens o.parts = some r →
+      ∃ T, targetLength i.lens (strDedup (splitChroms o.parts)) = some T ∧ IsN50 (detailed a).lengths T r) := by
+  obtain ⟨hl, hall⟩ := run_ok i o h
+  have hparts := runLoop_parts _ _ _ _ _ _ _ hl
+  -- the core: for statistics whose pieces all have two variants
+  have core : ∀ (s : Stats) (chroms : List String) (r : Nat), (∀ b ∈ s.splitBlocks, b.length > 1) →
+      blockN50 i.lens chroms s = some r →
+      ∃ T, targetLength i.lens (strDedup chroms) = some T ∧ IsN50 (detailed s).lengths T r := by
+    intro s chroms r hbig hr
+    unfold blockN50 at hr
+    split at hr
+    · cases hr
+    · rename_i hne
+      unfold computeNg50 at hr
+      cases hT : targetLength i.lens (strDedup chroms) with
+      | none => rw [hT] at hr; cases hr
+      | some T =>
+        rw [hT] at hr
+        simp only [Option.map_some, Option.some.injEq] at hr
+        subst hr
+        refine ⟨T, rfl, ?_⟩
+        have hlen : (detailed s).lengths = sortNat (s.splitBlocks.map span) := by
+          unfold detailed
+          rw [if_neg hne, bigOf_of_QBig hbig]
+        rw [hlen]
+        exact isN50_perm (sortNat_perm _).symm T _ (n50_spec _ T)
+  refine ⟨?_, ?_⟩
+  · intro p hp r hr
+    have hbig := (pieces_have_two_variants _ _ _ (hparts p hp).1).1
+    obtain ⟨T, hT, hN⟩ := core p.stats _ r hbig hr
+    refine ⟨T, hT, ?_, hN⟩
+    intro hne
+    rw [strDedup_const p.name _ (by simpa using hne) (by intro x hx; obtain ⟨_, _, rfl⟩ := List.mem_map.mp hx; rfl)] at hT
+    simp only [targetLength] at hT
+    cases hlk : lookupLen i.lens p.name with
+    | none => rw [hlk] at hT; cases hT
+    | some l => rw [hlk] at hT; simp at hT; rw [hT]
+  · intro a ha r hr
+    rw [hall] at ha
+    split at ha
+    · cases ha
+      apply core (totalStats o.parts) _ r ?_ hr
+      intro b hb
+      unfold totalStats at hb
+      rw [foldl_addStats_split] at hb
+      simp only [List.nil_append, List.mem_flatMap, List.mem_map] at hb
+      obtain ⟨s, ⟨p, hp, rfl⟩, hbs⟩ := hb
+      exact (pieces_have_two_variants _ _ _ (hparts p hp).1).1 b hbs
+    · cases ha
+
+/-! ### non-vacuity of the end-to-end theorems, F75 on the faithful model -/
+
+/-- the hypotheses of the `run_*` theorems are satisfiable: a plain file with two chromosomes, no `--chromosome`,
+repaired classification; both chromosomes are reported and the ALL row is printed -/
+example : ∃ i o, run i = .ok o ∧ i.flags.fixMissing = true ∧ i.flags.fixPs = true ∧
+    (i.indexed = false ∨ unpackChromosomes i.given = []) ∧ (i.file.map (·.1)).Nodup ∧ o.all.isSome ∧ o.parts ≠ [] := by
+  obtain ⟨o, h, hn, ha, _⟩ := exRun_plain
+  refine ⟨exRun false false [], o, h, rfl, rfl, Or.inl rfl, by decide, ha, ?_⟩
+  intro he; rw [he] at hn; cases hn
+
+/-- … and with an index, `--chromosome c1 --chromosome c1,c2` and `fixes/F75.patch`: c1 and c2 once each -/
+example : ∃ i o, run i = .ok o ∧ i.indexed = true ∧ unpackChromosomes i.given ≠ [] ∧ i.dedupGiven = true ∧
+    o.parts.map (·.name) = ["c1", "c2"] := by
+  obtain ⟨o, h, hn, _⟩ := exRun_indexed true
+  exact ⟨exRun true true ["c1", "c1,c2"], o, h, rfl, by rw [show (exRun true true ["c1", "c1,c2"]).given = ["c1", "c1,c2"] from rfl, ex_unpack]; simp, rfl, hn⟩
+
+/-- **F75** (faithful model of HEAD, `dedupGiven = false`): with an index, a chromosome named twice is fetched twice, is
+reported twice and enters the ALL row twice — 4 variants are reported for a file that has 2 -/
+example : ∃ o, run (exRun true false ["c1", "c1,c2"]) = .ok o ∧ o.parts.map (·.name) = ["c1", "c1", "c2"] ∧
+    o.all.map (fun a => (detailed a).variants) = some 4 := exRun_indexed false
+
+example : ∃ f vars s, chromStats f vars = some s ∧ (bigOf s.blocks).isEmpty = false := ⟨_, _, _, ex_stats, rfl⟩
+example : ∃ f o recs vars, readChrom f o recs = .ok vars ∧ vars ≠ [] := ⟨_, _, _, _, ex_read, by simp [exVars]⟩
+
+/-- **nonoverlap_sort_independent**: for a chromosome the reader accepted, `get_nonoverlapping_blocks` returns the same pieces
+with *any* routine that sorts the queue by leftmost position (the model uses a stable ascending merge sort; the code uses
+`sorted(..., reverse=True)` and pops from the end): positions are strictly increasing (`reader_spec`), so the blocks are
+pairwise disjoint and two blocks of the queue never tie. -/
+theorem nonoverlap_sort_independent (sort : List Block → List Block) (hsort : IsSort sort) (f : Flags) (onlySnvs : Bool)
+    (recs : List Rec) (vars : List Var) (h : readChrom f onlySnvs recs = .ok vars) :
+    nonoverlapG sort ((blocksOf (phasedOf f vars)).map (·.2)) = nonoverlap ((blocksOf (phasedOf f vars)).map (·.2)) := by
+  apply nonoverlapG_eq sort hsort
+  apply blocksOf_disj
+  have hlt := ((reader_spec f onlySnvs recs vars h).2).sublist (positions_sublist f vars)
+  exact hlt.imp (fun hab => Nat.ne_of_lt hab)
+
+example : IsSort sortBlocks := fun l => ⟨sortBlocks_perm l, sortBlocks_sorted l⟩
 
 end WhVerif.Props.C12
